@@ -424,6 +424,26 @@ def c01_cases(seed, n, tier, replay=None):
             cases.append({"id": cid, "settings": st, "history": [{"op": "root", "schema": doc}], "opts": {"has_impl": False, "hooks": True}})
             meta[cid] = {"source": "variant_defaults:%s@%d" % ("+".join(members), pos), "settings": st, "settings_sig": "small",
                          "history_kind": "root", "supported": False, "doc": doc}
+    # f32 / f64 values inside rendered defaults (arrays, tuples, nullable, maps, named, enum values)
+    for j, fmt in enumerate(["float", "double", None]):
+        fl = dict({"type": "number"}, **({"format": fmt} if fmt else {}))
+        doc = {"definitions": {
+            "Level": dict(fl, default=2.5),
+            "Steps": dict(fl, enum=[0.5, 1.5, 3.0]),
+            "Gauge": {"type": "object", "properties": {
+                "weights": {"type": "array", "items": dict(fl), "default": [0.5, 1.5, 1.0]},
+                "pair": {"type": "array", "items": [dict(fl), {"type": "integer"}], "minItems": 2, "maxItems": 2, "default": [0.25, 3]},
+                "maybe": dict(fl, type=["number", "null"], default=0.75),
+                "named": {"$ref": "#/definitions/Level", "default": 1.25},
+                "by_name": {"type": "object", "additionalProperties": dict(fl), "default": {"a": 0.5}},
+                "step": {"$ref": "#/definitions/Steps", "default": 1.5},
+                "fixed": {"type": "array", "items": dict(fl), "minItems": 2, "maxItems": 2, "default": [1.0, 2.0]}}}}}
+        for bld in (False, True):
+            cid = "f%02d%d" % (j, bld)
+            st = {"struct_builder": bld}
+            cases.append({"id": cid, "settings": st, "history": [{"op": "root", "schema": doc}], "opts": {"has_impl": False, "hooks": True}})
+            meta[cid] = {"source": "float_defaults:%s" % fmt, "settings": st, "settings_sig": "small", "history_kind": "root",
+                         "supported": False, "doc": doc}
     # map-typed members: every key constraint x value kind x required/optional/defaulted, under each map type
     key_kinds = {"plain": {}, "names_pattern": {"propertyNames": {"pattern": "^[a-z]+$"}},
                  "names_len": {"propertyNames": {"maxLength": 8}}, "names_ref": {"propertyNames": {"$ref": "#/definitions/Key"}},
